@@ -22,7 +22,7 @@ import (
 
 func init() { register("C38Options", tableC38Options) }
 
-func leanPairList(ps [][2]string) string {
+func c38LeanPairList(ps [][2]string) string {
 	q := make([]string, len(ps))
 	for i, p := range ps {
 		q[i] = fmt.Sprintf("(%q, %q)", p[0], p[1])
@@ -242,17 +242,17 @@ func tableC38Options(repo string) (string, error) {
 	var sb strings.Builder
 	sb.WriteString("namespace ZoektModel.Gen\n\n")
 	sb.WriteString("/-- fields of index.Options (name, type), in declaration order -/\n")
-	sb.WriteString("def optionsFields : List (String × String) := " + leanPairList(pairs(optNames, optTypes)) + "\n\n")
+	sb.WriteString("def optionsFields : List (String × String) := " + c38LeanPairList(pairs(optNames, optTypes)) + "\n\n")
 	sb.WriteString("/-- fields of index.HashOptions -/\n")
 	sb.WriteString("def hashOptionsFields : List String := " + leanStrList(hoNames) + "\n\n")
 	sb.WriteString("/-- Options.HashOptions(): (HashOptions field, Options field it copies) -/\n")
-	sb.WriteString("def hashOptionsMap : List (String × String) := " + leanPairList(hashMap) + "\n\n")
+	sb.WriteString("def hashOptionsMap : List (String × String) := " + c38LeanPairList(hashMap) + "\n\n")
 	sb.WriteString("/-- Options.GetHash(): the hasher.Write sequence as (format verb | \"raw\", HashOptions field) -/\n")
-	sb.WriteString("def hashWrites : List (String × String) := " + leanPairList(writes) + "\n\n")
+	sb.WriteString("def hashWrites : List (String × String) := " + c38LeanPairList(writes) + "\n\n")
 	sb.WriteString("/-- Options.IndexState(): the state returned by each return statement, in source order -/\n")
 	sb.WriteString("def indexStateReturns : List String := " + leanStrList(ladder) + "\n\n")
 	sb.WriteString("/-- fields of zoekt.Repository (name, type) -/\n")
-	sb.WriteString("def repositoryFields : List (String × String) := " + leanPairList(pairs(repoNames, repoTypes)) + "\n\n")
+	sb.WriteString("def repositoryFields : List (String × String) := " + c38LeanPairList(pairs(repoNames, repoTypes)) + "\n\n")
 	sb.WriteString("/-- Repository.MergeMutable: fields whose change is an error (forces a re-index) -/\n")
 	sb.WriteString("def mergeImmutableFields : List String := " + leanStrList(immutable) + "\n\n")
 	sb.WriteString("/-- Repository.MergeMutable: fields merged from the new description, in source order -/\n")
